@@ -7,7 +7,7 @@ pub trait VecZnxDftCopy<BE: Backend> {
     fn vec_znx_dft_copy<D: DataMut, A: VecZnxDftToRef<BE>>(&self, step: usize, offset: usize, res: &mut VecZnxDft<D, BE>, res_col: usize, a: &A, a_col: usize)
         requires res_col < old(res).cols, a_col < a.dref().cols, old(res).n == a.dref().n, step >= 1,
         ensures final(res).n == old(res).n, final(res).cols == old(res).cols, final(res).size == old(res).size, final(res).max_size == old(res).max_size,
-            forall|j: int| 0 <= j < old(res).size ==> #[trigger] final(res).dep(res_col as int, j) == (if offset + j * step < a.dref().size { a.dref().dep(a_col as int, offset + j * step) } else { Set::<Src>::empty() }),
+            forall|j: int| 0 <= j < old(res).size ==> #[trigger] final(res).dep(res_col as int, j) == (if offset + j * step < a.dref().size { a.dref().dep(a_col as int, offset + j * step) } else { ISet::<Src>::empty() }),
             forall|i: int, j: int| (i != res_col || j < 0 || j >= old(res).size) ==> #[trigger] final(res).dep(i, j) == old(res).dep(i, j);
 }
 pub trait VecZnxDftAddAssign<BE: Backend> {
@@ -18,8 +18,8 @@ pub trait VecZnxDftAddAssign<BE: Backend> {
             forall|i: int, j: int| (i != res_col || j < 0 || j >= old(res).size) ==> #[trigger] final(res).dep(i, j) == old(res).dep(i, j);
 }
 // union of the dependency sets of the operand limbs a vector-matrix product reads: rows r < row_max of every input column
-pub open spec fn vmp_in<BE>(a: VecZnxDft<&[u8], BE>, row_max: int) -> Set<Src> {
-    Set::new(|s: Src| exists|c: int, r: int| 0 <= c < a.cols && 0 <= r < row_max && #[trigger] a.dep(c, r).contains(s))
+pub open spec fn vmp_in<BE>(a: VecZnxDft<&[u8], BE>, row_max: int) -> ISet<Src> {
+    ISet::new(|s: Src| exists|c: int, r: int| 0 <= c < a.cols && 0 <= r < row_max && #[trigger] a.dep(c, r).contains(s))
 }
 pub trait VmpApplyDftToDftTmpBytes {
     spec fn s_vmp_tmp(&self, res_size: int, a_size: int, rows: int, cols_in: int, cols_out: int, size: int) -> int;
@@ -34,7 +34,7 @@ pub trait VmpApplyDftToDft<BE: Backend>: VmpApplyDftToDftTmpBytes {
         ensures final(res).n == old(res).n, final(res).cols == old(res).cols, final(res).size == old(res).size, final(res).max_size == old(res).max_size,
             final(scratch).avail == old(scratch).avail,
             forall|i: int, j: int| 0 <= i < old(res).cols && 0 <= j < old(res).size ==> #[trigger] final(res).dep(i, j) ==
-                (if j + limb_offset < pmat.size { vmp_in(a.dref(), smin(a.dref().size as int, pmat.rows as int)).union(pmat.dep@) } else { Set::<Src>::empty() }),
+                (if j + limb_offset < pmat.size { vmp_in(a.dref(), smin(a.dref().size as int, pmat.rows as int)).union(pmat.dep@) } else { ISet::<Src>::empty() }),
             forall|i: int, j: int| (i < 0 || i >= old(res).cols || j < 0 || j >= old(res).size) ==> #[trigger] final(res).dep(i, j) == old(res).dep(i, j);
 }
 // ---- scratch arena (C12 ledger): a take of `bytes` bytes from an arena with `avail` aligned bytes left; sizes are multiples of the 64-byte alignment for N >= 8 (assumption A-ALIGN) ----
@@ -46,6 +46,6 @@ impl<BE: Backend> Scratch<BE> {
             r.1.avail == old(self).avail - module.s_bytes_of_dft(cols as int, size as int),
             final(self).avail == old(self).avail,
             // taken memory holds whatever it held before
-            forall|i: int, j: int| #[trigger] r.0.dep(i, j) == set![GARBAGE()],
+            forall|i: int, j: int| #[trigger] r.0.dep(i, j) == ISet::<Src>::empty().insert(GARBAGE()),
     { unimplemented!() }
 }
